@@ -30,6 +30,37 @@ pub fn mem_bound(len: usize) -> u64 {
     1024 * len as u64 + (64 << 10)
 }
 
+/// Known finding K4: a `route a, b, c { … }` block becomes one route configuration *per pattern*, each with its own deep
+/// copy of the block's settings (value strings, proxy target lists), so the memory for such a block is (patterns) x
+/// (size of the settings), not a constant multiple of the input. This is the allowance that explains: three times the
+/// product for every route block of the text, where a block's settings are its bytes plus 48 bytes per list element.
+pub fn config_route_allowance(data: &[u8]) -> u64 {
+    let text = String::from_utf8_lossy(data);
+    let lines: Vec<&str> = text.lines().collect();
+    let mut total = 0u64;
+    let mut i = 0;
+    while i < lines.len() {
+        let l = lines[i].trim();
+        if l.starts_with("route") && l.ends_with('{') {
+            let patterns = l.matches(',').count() as u64 + 1;
+            let mut bytes = 0u64;
+            let mut elements = 0u64;
+            let mut j = i + 1;
+            while j < lines.len() && lines[j].trim() != "}" {
+                bytes += lines[j].len() as u64 + 1;
+                elements += lines[j].matches(',').count() as u64 + 1;
+                j += 1;
+            }
+            if patterns > 1 {
+                total += patterns * (3 * (bytes + 48 * elements) + 512);
+            }
+            i = j;
+        }
+        i += 1;
+    }
+    total
+}
+
 pub fn norm_msg(m: &str) -> String {
     let mut out = String::new();
     let mut last_digit = false;
@@ -58,8 +89,9 @@ pub fn judge(c: &Case, o: &Outcome) -> Option<Fail> {
         ST_OK | ST_ERR => {
             let bound = mem_bound(c.data.len());
             if o.max_single > bound || o.peak > bound {
+                let known_class = c.target == T_CONFIG && o.max_single <= bound && o.peak <= bound + config_route_allowance(&c.data);
                 Some(fail!(
-                    format!("memory:{}", t),
+                    if known_class { "memory:config:route-patterns-x-settings".to_string() } else { format!("memory:{}", t) },
                     "{} parser allocated peak {} bytes (largest single request {}) for a {}-byte input (bound {}): {}",
                     t, o.peak, o.max_single, c.data.len(), bound, shown
                 ))
